@@ -21,6 +21,7 @@ git checkout -q -- . ; git clean -fdq -e target
 # our checks against the change (the property's own check; others can be added by hand)
 shift 2
 checks=${@:-$id}
+unset CARGO_TARGET_DIR
 cd /repo && git apply $out/patch$n.diff || { echo "repo_apply=no" >> $res; exit 4; }
 for c in $checks; do
   (cd /verif && timeout 1500 ./check $c > $out/v${n}_check_$c.log 2>&1; echo "check_${c}_rc=$?" >> $res; grep -E "^(VIOLATION|OK|KNOWN)" $out/v${n}_check_$c.log | head -3 >> $res)
